@@ -83,7 +83,11 @@ func init() {
 	common := "BFS over real ledger operations (inject foreign/user × transaction templates, ExecuteSignedBlock × block alphabet on a follower, CreateAndExecuteBlock on a publisher, refresh, remove-invalid, reopen, rebuild-indexes) from two roots (genesis; a chain with distributed outputs); a state = canonical digest of all bolt buckets; the reference model (model/ledger, big.Int) predicts every step; "
 	reg := func(id, kind string, full bool, oracle string) {
 		register(id, "model_checking", func(r *engine.Run) {
-			runExplore(r, id, exploreCfg{Worlds: worldsFor(kind), MaxDepth: r.Pick(4, 6), MaxStates: r.Pick(2500, 40000), Budget: budget(r), Roots: roots, FullViews: full}, common+oracle)
+			ws := worldsFor(kind)
+			if r.Thorough() && (id == "C01" || id == "C03") {
+				ws = append(ws, worldsFor("extreme")...) // genesis volume 2^64-2 droplets: coin and hour sums touch 2^64
+			}
+			runExplore(r, id, exploreCfg{Worlds: ws, MaxDepth: r.Pick(4, 6), MaxStates: r.Pick(2500, 40000), Budget: budget(r), Roots: roots, FullViews: full}, common+oracle)
 		})
 	}
 	reg("C01", "both", false, "oracle C01: Σ coins of the real unspent set equals the genesis volume in every state; every transaction of an accepted block has Σin = Σout (exact); coin-creating / destroying / sum-wrapping transactions are rejected at injection and inside publisher-signed blocks")
